@@ -281,6 +281,43 @@ def iso(A, B):
     return True
 
 
+def signature(A, sigma=None):
+    """Canonical form of the language of A over sigma: the minimal complete DFA, states numbered in BFS order.
+    Two automata have the same signature iff they accept the same language (over the same sigma)."""
+    sigma = sorted(A.Sigma if sigma is None else sigma)
+    D = determinise(A, sigma)
+    n = len(D.subsets)
+    cls = [1 if i in D.finals else 0 for i in range(n)]
+    while True:
+        sig = [(cls[i],) + tuple(cls[D.trans[i][a]] for a in sigma) for i in range(n)]
+        ids = {}
+        new = [ids.setdefault(s, len(ids)) for s in sig]
+        stable = len(ids) == len(set(cls))
+        cls = new
+        if stable:
+            break
+    order = {cls[0]: 0}
+    todo = [0]
+    rows = []
+    rep = {}
+    for i in range(n):
+        rep.setdefault(cls[i], i)
+    k = 0
+    queue = [cls[0]]
+    while k < len(queue):
+        c = queue[k]
+        k += 1
+        row = []
+        for a in sigma:
+            t = cls[D.trans[rep[c]][a]]
+            if t not in order:
+                order[t] = len(order)
+                queue.append(t)
+            row.append(order[t])
+        rows.append((tuple(row), rep[c] in D.finals))
+    return (tuple(sigma), tuple(rows))
+
+
 # ---- second, differently built implementations used only by the self-test -------------------
 
 def accepts_subset(A, w):
